@@ -7,42 +7,48 @@ maximal run ends with shutdown completed". -/
 namespace VaxisModel.Lemmas.ConcInv
 open VaxisModel.Model.Conc VaxisModel.Lemmas.ConcMeasure VaxisModel.Lemmas.ConcShutdown
 
-theorem quiescent_iff (s : SSys) (h : s.quiescent = true) :
-    snext s .parser = none ∧ snext s .inputRecv = none ∧ snext s .inputStep = none ∧ snext s .termReply = none ∧
-    snext s .consume = none ∧ ∀ j, snext s (.caller j) = none := by
-  simp only [SSys.quiescent, Bool.and_eq_true, Option.isNone_iff_eq_none] at h
-  refine ⟨stuck_internal s h.1 _ rfl, stuck_internal s h.1 _ rfl, stuck_internal s h.1 _ rfl, stuck_internal s h.1 _ rfl, h.2,
-    fun j => stuck_internal s h.1 _ rfl⟩
+/-- The only way an input goroutine whose parser has stopped can be at rest without being done: it is
+inside a blocking post, the queue is full, the application does not receive, and `Close` has not
+completed (`chQuit` is open). The application's next receive releases it. -/
+def postBlocked (s : SSys) (i : IPc) : Prop :=
+  ∃ k, i = .posting (k + 1) ∧ s.consumer = false ∧ s.qcap ≤ s.queueLen ∧ s.quitCloses = 0
 
-/-- The input goroutine can move (possibly after the application receives an event) unless it is
-done, or at its `select` with an empty channel. -/
-theorem input_blocked (s : SSys) (h : Inv s) (h1 : snext s .inputRecv = none) (h2 : snext s .inputStep = none)
-    (h3 : snext s .consume = none) : s.ipc = .done ∨ (s.ipc = .select ∧ s.seqs = []) := by
-  have hroom := h.room
-  have hq := h.qpos
-  have hok := h.ipcOK
-  obtain ⟨qcap, queueLen, consumer, inbuf, ppc, seqs, seqsClosed, closeSig, closedSig, ipc, killSig, callers, closedFlag,
-    suspendedFlag, quitCloses, da1Pending, da1First, resumeClears⟩ := s
-  dsimp only at *
+/-- An input goroutine none of whose scheduler steps is enabled (and the application has nothing to
+receive) is done, or waits at its `select` on an open empty channel, or is blocked in a post. -/
+theorem iact_rest (s : SSys) (v : IView) (hq : 1 ≤ s.qcap) (hc : snext s .consume = none)
+    (h : ∀ a, a.sched = true → iact s v a = none) :
+    v.ipc = .done ∨ (v.ipc = .select ∧ v.seqs = [] ∧ v.closed = false) ∨ postBlocked s v.ipc := by
+  obtain ⟨ipc, seqs, closed⟩ := v
   cases ipc with
   | done => exact Or.inl rfl
   | select =>
-    refine Or.inr ⟨rfl, ?_⟩
+    have hr := h .recv rfl
     cases seqs with
-    | nil => rfl
-    | cons t r => cases t <;> simp [snext] at h1
-  | closing c => exact absurd rfl (hok c)
+    | cons t r => cases t <;> simp [iact] at hr
+    | nil =>
+      cases closed with
+      | true => simp [iact] at hr
+      | false => exact Or.inr (Or.inl ⟨rfl, rfl, rfl⟩)
   | posting k =>
+    have hs := h .step rfl
+    have hqt := h .quit rfl
     cases k with
-    | zero => simp [snext] at h2
+    | zero => simp [iact] at hs
     | succ k =>
-      simp only [snext] at h2 h3
-      by_cases hlt : queueLen < qcap
-      · simp [hlt] at h2
-      · cases consumer
-        · simp only [b2n_false, inFlight, ipcPosts] at hroom; omega
-        · have : queueLen > 0 := by omega
-          simp [this] at h3
+      refine Or.inr (Or.inr ⟨k, rfl, ?_⟩)
+      simp only [iact] at hs hqt
+      simp only [snext] at hc
+      have h1 : ¬ s.queueLen < s.qcap := by intro hlt; simp [hlt] at hs
+      have h2 : s.quitCloses = 0 := by
+        cases hz : s.quitCloses with
+        | zero => rfl
+        | succ n => simp [hz] at hqt
+      refine ⟨?_, by omega, h2⟩
+      cases hcons : s.consumer with
+      | false => rfl
+      | true =>
+        have : s.queueLen > 0 := by omega
+        simp [hcons, this] at hc
 
 theorem unret_of_mem (l : List Caller) (c : Caller) (hc : c ∈ l) (hne : c.pc ≠ .returned) : 1 ≤ sumBy fUnret l := by
   have := sumBy_pos_of_mem fUnret l c hc
@@ -59,33 +65,29 @@ theorem exists_unret : ∀ (l : List Caller), 1 ≤ sumBy fUnret l → ∃ (j : 
         exact ⟨j + 1, c', by simp [h1], h2⟩
       · exact ⟨0, c, by simp, hc⟩
 
-/-- **Rest is completion.** In a state satisfying the invariant in which nothing a scheduler may
-pick is enabled: every caller of `Close`/`Suspend` has returned; if the session is suspended (or
-closed) the parser goroutine and the input goroutine are done; if it is closed, `chQuit` has been
-closed exactly once. -/
-theorem rest_is_done (s : SSys) (h : Inv s) (hq : s.quiescent = true) :
-    sumBy fUnret s.callers = 0 ∧ (s.suspendedFlag = true → s.ppc = .done ∧ s.ipc = .done) ∧
-    (s.closedFlag = true → s.quitCloses = 1 ∧ s.suspendedFlag = true) := by
-  obtain ⟨q1, q2, q3, q4, q5, q6⟩ := quiescent_iff s hq
-  have hin := input_blocked s h q2 q3 q5
-  have hunret : sumBy fUnret s.callers = 0 := by
-    cases hz : sumBy fUnret s.callers with
-    | zero => rfl
-    | succ n =>
+/-- **Every caller returns.** In a state satisfying the invariant in which nothing a scheduler may
+pick is enabled, every caller of `Close`/`Suspend` has returned. -/
+theorem rest_all_returned (s : SSys) (h : Inv s) (hq : s.quiescent = true) : sumBy fUnret s.callers = 0 := by
+  have q1 := quiescent_sched s hq .parser rfl
+  have q4 := quiescent_sched s hq .termReply rfl
+  cases hz : sumBy fUnret s.callers with
+  | zero => rfl
+  | succ n =>
       exfalso
       obtain ⟨j, c, hj, hne⟩ := exists_unret s.callers (by omega)
       have hm : c ∈ s.callers := List.mem_of_getElem? hj
       have m5 := sumBy_pos_of_mem fSC s.callers c hm
       have m7 := sumBy_pos_of_mem fWC s.callers c hm
       have m9 := sumBy_pos_of_mem fBad s.callers c hm
-      have qj := q6 j
-      obtain ⟨h1, h2, h3, h4, h5, h6, h7, h8, h9, h10, h11, h12, h13, h14, h15, h16, h17, h18⟩ := h
-      obtain ⟨qcap, queueLen, consumer, inbuf, ppc, seqs, seqsClosed, closeSig, closedSig, ipc, killSig, callers, closedFlag,
+      have qj := quiescent_sched s hq (.caller j) rfl
+      have qd := quiescent_sched s hq (.drain j) rfl
+      obtain ⟨h1, h2, h3, h4, h5, h6, h7, h8, h9, h10, h11, h12, h13, h14, h15⟩ := h
+      obtain ⟨qcap, queueLen, consumer, inbuf, ppc, seqs, seqsClosed, closeSig, closedSig, ipc, killSig, winchSig, olds, callers, closedFlag,
         suspendedFlag, quitCloses, da1Pending, da1First, resumeClears⟩ := s
       dsimp only at *
       subst h1
       obtain ⟨pc, k⟩ := c
-      simp only [snext, hj] at qj
+      simp only [snext, hj] at qj qd
       cases pc <;> simp [closeStep, afterGuard, afterSignal, afterDA1, afterSuspend] at qj hne
       · -- checkFlag
         cases closedFlag <;> simp at qj
@@ -97,8 +99,13 @@ theorem rest_is_done (s : SSys) (h : Inv s) (hq : s.quiescent = true) :
         by_cases hcs : closeSig = 0
         · simp [hcs] at qj
         · simp only [pT] at *; omega
-      · -- waitClosed blocked
+      · -- waitClosed blocked: no closed token, and nothing in the channel to discard
         simp [fWC] at m7
+        have hseqs : seqs = [] := by
+          cases seqs with
+          | nil => rfl
+          | cons t r => simp at qd
+        subst hseqs
         by_cases hcs : 0 < closedSig
         · simp [hcs] at qj
         · have hcs0 : closedSig = 0 := by omega
@@ -112,43 +119,86 @@ theorem rest_is_done (s : SSys) (h : Inv s) (hq : s.quiescent = true) :
               simp only [pT, pX, pD, pR, emptyN, List.length_nil] at *
               have : da1Pending > 0 := by omega
               simp [snext, this] at q4
-          | emitting k =>
-            rcases hin with hd | ⟨_, hs⟩
-            · subst hd; simp only [pE, iDone] at h16; omega
-            · subst hs; simp [snext] at q1
-          | emitEOF =>
-            rcases hin with hd | ⟨_, hs⟩
-            · subst hd; simp only [pE, iDone] at h16; omega
-            · subst hs; simp [snext] at q1
+          | emitting k => simp [snext] at q1
+          | emitEOF => simp [snext] at q1
           | signalClosed => simp [snext] at q1
           | done => simp only [pT, pD] at *; omega
-  refine ⟨hunret, ?_, ?_⟩
-  · intro hs
+
+theorem old_rest (s : SSys) (h : Inv s) (hq : s.quiescent = true) (o : Old) (ho : o ∈ s.olds) :
+    o.ipc = .done ∨ postBlocked s o.ipc := by
+  obtain ⟨j, hj⟩ := List.getElem?_of_mem ho
+  have hc := quiescent_sched s hq .consume rfl
+  have hall : ∀ a, a.sched = true → iact s ⟨o.ipc, o.seqs, true⟩ a = none := by
+    intro a ha
+    have := quiescent_sched s hq (.old j a) ha
+    simp only [snext, hj] at this
+    split at this
+    · simp at this
+    · assumption
+  rcases iact_rest s ⟨o.ipc, o.seqs, true⟩ h.qpos hc hall with h1 | ⟨_, _, h3⟩ | h1
+  · exact Or.inl h1
+  · simp at h3
+  · exact Or.inr h1
+
+/-- **Rest is completion.** In a state satisfying the invariant in which nothing a scheduler may
+pick is enabled: every caller of `Close`/`Suspend` has returned; if the session is suspended (or
+closed) the parser goroutine is done and the input goroutine is done — or blocked in a post the
+application has not received (`postBlocked`); the input goroutines of earlier sessions likewise; if
+the session is closed, `chQuit` has been closed exactly once and every input goroutine is done. -/
+theorem rest_is_done (s : SSys) (h : Inv s) (hq : s.quiescent = true) :
+    sumBy fUnret s.callers = 0 ∧
+    (s.suspendedFlag = true → s.ppc = .done ∧ (s.ipc = .done ∨ postBlocked s s.ipc)) ∧
+    (∀ o ∈ s.olds, o.ipc = .done ∨ postBlocked s o.ipc) ∧
+    (s.closedFlag = true → s.quitCloses = 1 ∧ s.suspendedFlag = true ∧ s.ipc = .done ∧ ∀ o ∈ s.olds, o.ipc = .done) := by
+  have hunret := rest_all_returned s h hq
+  have hc := quiescent_sched s hq .consume rfl
+  have hsusp : s.suspendedFlag = true → s.ppc = .done ∧ (s.ipc = .done ∨ postBlocked s s.ipc) := by
+    intro hs
     have e1 := sumBy_le_unret fSC (fun c => by obtain ⟨pc, k⟩ := c; cases pc <;> simp [fSC, fUnret]) s.callers
     have e2 := sumBy_le_unret fWD (fun c => by obtain ⟨pc, k⟩ := c; cases pc <;> simp [fWD, fUnret]) s.callers
     have e3 := sumBy_le_unret fWC (fun c => by obtain ⟨pc, k⟩ := c; cases pc <;> simp [fWC, fUnret]) s.callers
     have hsusp := h.susp
-    have heof := h.eof
     rw [hs] at hsusp
     have hT : pT s = 1 := by simp only [b2n_true] at hsusp; omega
     have hD : s.ppc = .done := by
       cases hp : s.ppc <;> simp [pT, pD, hp] at hT
       rfl
     refine ⟨hD, ?_⟩
-    rcases hin with hd | ⟨hi, hs'⟩
-    · exact hd
-    · rw [hD, hi, hs'] at heof; simp [pE, eofCount, iDone] at heof
-  · intro hc
-    have e5 := sumBy_le_unret fActive (fun c => by obtain ⟨pc, k⟩ := c; cases pc <;> cases k <;> simp [fActive, fUnret]) s.callers
-    have hflag := h.flag
-    have hafter := h.afterClose
-    rw [hc] at hflag
-    simp only [b2n_true] at hflag
-    have hqc : s.quitCloses = 1 := by omega
-    refine ⟨hqc, ?_⟩
+    have hch := h.chan
+    rw [hD] at hch
+    have hcl : s.seqsClosed = true := by cases hx : s.seqsClosed <;> simp [hx, pD] at hch ⊢
+    have hall : ∀ a, a.sched = true → iact s ⟨s.ipc, s.seqs, s.seqsClosed⟩ a = none := by
+      intro a ha
+      have := quiescent_sched s hq (.input a) ha
+      simp only [snext] at this
+      split at this
+      · simp at this
+      · assumption
+    rcases iact_rest s ⟨s.ipc, s.seqs, s.seqsClosed⟩ h.qpos hc hall with h1 | ⟨_, _, h3⟩ | h1
+    · exact Or.inl h1
+    · simp [hcl] at h3
+    · exact Or.inr h1
+  refine ⟨hunret, hsusp, fun o ho => old_rest s h hq o ho, ?_⟩
+  intro hcf
+  have e5 := sumBy_le_unret fActive (fun c => by obtain ⟨pc, k⟩ := c; cases pc <;> cases k <;> simp [fActive, fUnret]) s.callers
+  have hflag := h.flag
+  have hafter := h.afterClose
+  rw [hcf] at hflag
+  simp only [b2n_true] at hflag
+  have hqc : s.quitCloses = 1 := by omega
+  have hsf : s.suspendedFlag = true := by
     have := hafter (by omega)
     cases hsf : s.suspendedFlag <;> simp [hsf] at this ⊢
-
+  have nb : ∀ i, ¬ postBlocked s i := by
+    intro i ⟨k, _, _, _, h4⟩; omega
+  refine ⟨hqc, hsf, ?_, ?_⟩
+  · rcases (hsusp hsf).2 with h1 | h1
+    · exact h1
+    · exact absurd h1 (nb _)
+  · intro o ho
+    rcases old_rest s h hq o ho with h1 | h1
+    · exact h1
+    · exact absurd h1 (nb _)
 
 /-- A state in which some scheduler label is enabled is not at rest, and conversely. -/
 theorem enabled_of_not_quiescent (s : SSys) (h : s.quiescent = false) : ∃ l s', l.sched = true ∧ snext s l = some s' := by
@@ -160,8 +210,8 @@ theorem enabled_of_not_quiescent (s : SSys) (h : s.quiescent = false) : ∃ l s'
     | none => rfl
     | some s' => exact absurd ⟨l, s', hl, hs⟩ hno
   have : s.quiescent = true := by
-    simp only [SSys.quiescent, SSys.stuck, Bool.and_eq_true, Option.isNone_iff_eq_none, List.all_eq_true]
-    exact ⟨⟨⟨⟨⟨⟨hall _ rfl, hall _ rfl⟩, hall _ rfl⟩, hall _ rfl⟩, hall _ rfl⟩, fun j _ => hall _ rfl⟩, hall _ rfl⟩
+    simp only [SSys.quiescent, List.all_eq_true, Option.isNone_iff_eq_none]
+    exact fun l hl => hall l (schedLabels_sched s l hl)
   rw [this] at h; exact absurd h (by simp)
 
 /-- From every state some schedule leads to rest (the variant bounds its length). -/
@@ -193,11 +243,13 @@ theorem inv_sched (s s' : SSys) (l : SLabel) (hl : l.sched = true) (h : Inv s) (
   cases l <;> simp [SLabel.sched] at hl
   · exact inv_termReply s s' h hn
   · exact inv_parser s s' h hn
-  · exact inv_inputRecv s s' h hn
-  · exact inv_inputKill s s' h hn
-  · exact inv_inputStep s s' h hn
+  · rename_i a
+    exact inv_input s s' a h hn (fun ha => by subst ha; simp [IAct.sched] at hl)
+  · rename_i j a
+    exact inv_old s s' j a h hn (fun ha => by subst ha; simp [IAct.sched] at hl)
   · exact inv_consume s s' h hn
   · exact inv_caller s s' _ h hn
+  · exact inv_drain s s' _ h hn
 
 theorem inv_sched_run : ∀ (ls : List SLabel) (s s' : SSys), (∀ l ∈ ls, l.sched = true) → Inv s → srun s ls = some s' → Inv s'
   | [], s, s', _, h, hr => by simp [srun] at hr; subst hr; exact h
